@@ -7,3 +7,10 @@ pub mod rng;
 pub mod scenario;
 pub mod translator;
 pub use rng::Rng;
+
+/// Tell the getrandom shim that a new run starts (its key stream restarts from the run's seed).
+pub fn new_hash_epoch() {
+    static EPOCH: std::sync::atomic::AtomicU64 = std::sync::atomic::AtomicU64::new(1);
+    let e = EPOCH.fetch_add(1, std::sync::atomic::Ordering::SeqCst);
+    std::env::set_var("VERIF_HASH_EPOCH", e.to_string());
+}
